@@ -1,6 +1,6 @@
 (* binary64 instance of the numeric interface: IEEE primitives for + - * / sqrt and comparisons,
    software elementary functions (FloatFun), fail-closed tables for Gamma and K_nu. *)
-From Coq Require Import ZArith Bool Uint63 PrimFloat FloatOps List.
+From Coq Require Import ZArith Bool Uint63 PrimFloat FloatOps SpecFloat List.
 Require Import AOV.base.Num AOV.base.FloatFun.
 Import ListNotations.
 Local Open Scope float_scope.
@@ -20,13 +20,38 @@ Definition f32 (x : float) : float :=
   let c := x * 0x1.0000002p+29 in
   let r := c - (c - x) in if is_nan r || is_infinity r then x else r.
 
+(* binary32 bit pattern of a double that holds a binary32 value (normal range), and back *)
+Definition f32_bits (x : float) : Z :=
+  match Prim2SF x with
+  | S754_zero s => if s then 2147483648 else 0
+  | S754_infinity s => (if s then 2147483648 else 0) + 2139095040
+  | S754_nan => 2143289344
+  | S754_finite s m e =>
+      (* x = m * 2^e with m < 2^53: normalise to 24 bits *)
+      let nb := Z.log2 (Zpos m) in              (* m in [2^nb, 2^(nb+1)) *)
+      let ex := nb + e in                       (* unbiased exponent *)
+      let mant := (Zpos m * 2 ^ 23) / 2 ^ nb in    (* 24-bit significand, exact if x is a binary32 value *)
+      (if s then 2147483648 else 0) + (if ex + 127 <=? 0 then (mant * 2 ^ (ex + 126)) / 2 ^ 0 / 1
+                                       else (ex + 127) * 8388608 + (mant - 8388608))
+  end%Z.
+Definition f32_of_bits (b : Z) : float :=
+  let s := (2147483648 <=? b)%Z in
+  let b' := (if s then b - 2147483648 else b)%Z in
+  let ex := (b' / 8388608)%Z in
+  let fr := (b' mod 8388608)%Z in
+  let v := if (ex =? 0)%Z then Z.ldexp (fZ fr) (-149)
+           else if (ex =? 255)%Z then (if (fr =? 0)%Z then infinity else nan)
+           else Z.ldexp (fZ (fr + 8388608)) (ex - 150) in
+  if s then opp v else v.
+Definition fbor32 (a b : float) : float := f32_of_bits (Z.lor (f32_bits a) (f32_bits b)).
+
 Definition FOpsK (ktol : float) (t : otable) : NumOps float := {|
   nadd := add; nsub := sub; nmul := mul; ndiv := div; nopp := opp; nsqrt := sqrt; nabs := abs;
   nofZ := fZ; nleb := leb; nltb := ltb; neqb := eqb;
   npow := fpow; nexp := fexp; nln := fln; nlog10 := flog10; ncos := fcos; nsin := fsin;
   natan2 := fatan2; npi := fpi;
   ngamma := fun x => olookup ktol t (-1) x;  nkv := fun nu x => olookup ktol t nu x;
-  nround := fround_he; nfloor := ffloor; ntoZ := f2Z; nf32 := f32 |}.
+  nround := fround_he; nfloor := ffloor; ntoZ := f2Z; nf32 := f32; nbor32 := fbor32 |}.
 Definition FOps (t : otable) : NumOps float := FOpsK 0x1p-38 t.
 
 Definition fcloseb := fclose.
